@@ -18,7 +18,17 @@ fn gen_run<B: Be>(g: &mut Gen, run: i64, nops: usize, out: &mut Out) {
     let mut file: File<B> = File::new();
     g.reset();
     g.vec_bias = run % 3 == 0;
-    out.emit(reset_event::<B>(run));
+    // every fifth run rescales all its numbers by a power of two far below / above machine epsilon, every
+    // fifth run uses the floats next to 0.1 ("neighbouring floats"): see ops::Codec
+    let f32ty = B::TY == "f32";
+    let codec = match (run / 2) % 5 {
+        3 => Codec::Scale(if (run / 10) % 2 == 0 { if f32ty { -30 } else { -60 } } else if f32ty { 20 } else { 40 }),
+        4 => Codec::Ulp,
+        _ => Codec::Plain,
+    };
+    file.codec = codec;
+    g.mode = codec;
+    out.emit(reset_event_mode::<B>(run, codec));
     let mut done = 0;
     let mut guardn = 0;
     while done < nops && guardn < 10 * nops {
@@ -51,7 +61,12 @@ fn replay_events<B: Be>(evs: &[serde_json::Value], out: &mut Out) {
         match e["ev"].as_str().unwrap_or("") {
             "Reset" => {
                 file = File::new();
-                out.emit(reset_event::<B>(run));
+                file.codec = match e["mode"].as_str().unwrap_or("plain") {
+                    "scale" => Codec::Scale(e["se"].as_i64().unwrap_or(0) as i32),
+                    "ulp" => Codec::Ulp,
+                    _ => Codec::Plain,
+                };
+                out.emit(reset_event_mode::<B>(run, file.codec));
             }
             "Op" => {
                 if let Some(x) = file.exec(run, &OpCall::from_json(e)) {
